@@ -138,6 +138,8 @@ class EBB3:
         '''
         Separate the version number string, and save it as a raw and parsed string.
         '''
+        self.version = None         # Forget any version learned from an earlier connection.
+        self.version_parsed = None
         ebb_version_string = ebb_version_string.split("Firmware Version ", 1)
 
         if len(ebb_version_string) > 1:
